@@ -1338,6 +1338,14 @@ def correspond(ctx):
                           'modular grammar gives %s, the hand-inlined grammar gives %s' % (str(a)[:160], str(b)[:160]),
                           key=e['key'])
 
+    # check.py counts the keyed known findings above as "a failing input was found" and would then only note a
+    # broken proof obligation / regeneration tie: report those here when no NEW failing input was found
+    broken = list(getattr(ctx, 'proof_broken', [])) + list(getattr(ctx, 'tie_broken', []))
+    if broken and any(v['found'] and v.get('key') for v in ctx.violations) \
+            and not any(v['found'] and not v.get('key') for v in ctx.violations):
+        for what, det in broken:
+            ctx.violation(what, {'no_longer_checks': what, 'detail': det}, False, det)
+
 
 def replay(ctx, case):
     w = case['witness']
